@@ -363,10 +363,22 @@ def run(ctx, repo, tier):
                 if g_.name in ("merge_sublists", "merge_matrix_cells", "delete_rate_cells", "sqra_normalize"):
                     continue
                 lookups.append((fn_, c_, g_))
+    def closure_src(g0):
+        seen_, todo_, out_ = {g0.name}, [g0], []
+        while todo_:
+            g1 = todo_.pop()
+            out_.append(g1)
+            for c1 in ast.walk(g1.node):
+                if isinstance(c1, ast.Call) and isinstance(c1.func, ast.Name):
+                    g2 = fm.module.functions.get(c1.func.id)
+                    if g2 is not None and g2.cls is None and g2.name not in seen_ and g2.name not in ("merge_sublists", "merge_matrix_cells", "delete_rate_cells"):
+                        seen_.add(g2.name)
+                        todo_.append(g2)
+        return out_
     bad_l = []
     for fn_, c_, g_ in lookups:
         ctx.analysed(g_)
-        txt_ = src(g_.node)
+        txt_ = " ".join(src(h_.node) for h_ in closure_src(g_))
         if "bisect" in txt_ or "searchsorted" in txt_:
             bad_l.append((fn_, c_, g_))
     if bad_l:
@@ -377,7 +389,7 @@ def run(ctx, repo, tier):
                     witness="index_list=[[0, 3], [1], [2]], cell 3: bisect over first members [0, 1, 2] lands on group [2]")
     elif lookups:
         full = all(any(isinstance(x_, ast.ListComp) and any(isinstance(y_, ast.Compare) and isinstance(y_.ops[0], ast.In) for y_ in ast.walk(x_))
-                       for x_ in ast.walk(g_.node)) for _, _, g_ in lookups)
+                       for h_ in closure_src(g_) for x_ in ast.walk(h_.node)) for _, _, g_ in lookups)
         if full:
             ctx.ok("CANDIDATES", "C13.merge.reindex", "cells are located by a membership scan over ALL groups of the index list", fm.where,
                    src(lookups[0][1])[:120])
